@@ -1,12 +1,11 @@
 #!/bin/bash
-# Builds every engine's worker binary from files on disk only (warms the Go build cache).
+# Builds the worker binary of every engine the manifest claims, from files on disk only (warms the Go build cache).
 set -e
 cd "$(dirname "$0")/.."
 export GOFLAGS=-mod=mod GOPROXY=off CGO_ENABLED=1
 unset GOSUMDB GOTOOLCHAIN
 mkdir -p .build evidence replays
-for e in engines/*/; do
-  n=$(basename "$e")
+for n in $(python3 -c "import json;print(' '.join(e['name'] for e in json.load(open('MANIFEST.json'))['engines']))"); do
   go test -c -tags verif -vet=off -o ".build/$n.test" "./engines/$n/"
 done
 echo "setup ok"
